@@ -530,6 +530,11 @@ type batch struct {
 	quick    int
 	thorough int
 	chunk    int
+	// enumeration batch: every base scenario (idx) is run once without a fault to count the candidate
+	// places, then once per (place, kind, position)
+	enumKinds int
+	enumPos   int
+	enumBases int // base scenarios in the thorough tier (quick tier: quick)
 }
 
 type propDef struct {
@@ -561,10 +566,12 @@ func init() {
 			{name: "manyfiles", params: map[string]string{"many": "1"}, quick: 16, thorough: 300, chunk: 1}},
 		rule:    "each evaluation is one simulated end-to-end transfer (generated source tree x configuration vector x transport profile x schedule) on a fault-free link; non-trivial = both sides reported success and the file-system oracle compared every transferred entry; distinct = distinct (configuration class, schedule-trace hash) pairs"})
 	reg(&propDef{id: "C02", level: "exploration", crashIsViol: false,
-		batches: []batch{{name: "bytefaults", quick: 3000, thorough: 120000}},
+		batches: []batch{{name: "bytefaults", quick: 3000, thorough: 60000},
+			{name: "enumerated", quick: 2, thorough: 60, enumKinds: 5, enumPos: 6, enumBases: 60}},
 		rule:    "each evaluation is one simulated transfer (1-3 small files, protocols 1-4, base64/binary/compressed/escaped, resume with hash exchange) in which 1-3 byte-level faults (bit flip, deletion, duplication, insertion, truncation) are applied to tape-chosen chunks and positions (biased to the structural bytes of a line) of either direction of one hop; non-trivial = at least one fault actually altered bytes and both roles ended; distinct = distinct (configuration + fault placement class, schedule-trace hash, tape hash)"})
 	reg(&propDef{id: "C11", level: "exploration", crashIsViol: false,
-		batches: []batch{{name: "flowfaults", quick: 2600, thorough: 100000}},
+		batches: []batch{{name: "flowfaults", quick: 2600, thorough: 60000},
+			{name: "enumerated", quick: 3, thorough: 80, enumKinds: 13, enumPos: 1, enumBases: 80}},
 		rule:    "each evaluation is one simulated transfer in which, after the ACT has been written towards the server, one fault is injected at a tape-chosen message: a direction (or both) goes silent, a link closes or starts failing writes, a destination write fails (optionally after a short write), a source read fails, the source file shrinks under the reader, or one process is stalled for T/2, 1.5T or 3T; non-trivial = the fault fired and termination, reports, fail lines and the goroutine-leak monitor were all evaluated; distinct = distinct (configuration + fault kind + hop, schedule-trace hash, tape hash)"})
 	reg(&propDef{id: "C09", level: "exploration", crashIsViol: false,
 		batches: []batch{{name: "names", params: map[string]string{"mode": "system"}, quick: 1600, thorough: 60000},
@@ -574,7 +581,8 @@ func init() {
 		batches: []batch{{name: "fields", quick: 3000, thorough: 120000}},
 		rule:    "each evaluation is one simulated transfer in which a link rewriter replaces the payload of 1-3 tape-chosen protocol lines sent to the attacked role (server or client) by boundary values: numbers (-1, 0, +-1 of the expected, 2^31, 2^62, 2^63-1, non-numeric, oversized), broken base64/zlib, truncated or wrongly typed JSON, hostile known fields; with and without a progress display, terminal widths 6-80; oracles: no panic/fatal error in any goroutine (a crash of the worker process is attributed to the run and re-executed), allocation during the run <= 64 MiB + 16 x bytes moved, both roles end, no percentage outside 0..100 on the terminal, and a transparency probe in both directions passes afterwards; non-trivial = an edit fired and all oracles ran; distinct = distinct (configuration + attacked role, schedule-trace hash, tape hash)"})
 	reg(&propDef{id: "C10", level: "exploration", crashIsViol: false,
-		batches: []batch{{name: "stops", quick: 2400, thorough: 90000}},
+		batches: []batch{{name: "stops", quick: 2400, thorough: 60000},
+			{name: "enumerated", quick: 4, thorough: 120, enumKinds: 6, enumPos: 1, enumBases: 120}},
 		rule:    "each evaluation is one simulated transfer stopped at a tape-chosen message after the handshake by one of: user Ctrl-C plus prompt keys through the real promptui prompt (keep / delete), the public StopTransferringFiles(bool), SIGINT or SIGTERM delivered to the server main; non-trivial = the stop fired and termination bound, reports, delete/keep semantics and bystander files were all evaluated; distinct = distinct (configuration + stop kind, schedule-trace hash, tape hash)"})
 	reg(&propDef{id: "C16", level: "exploration", crashIsViol: true,
 		batches: []batch{{name: "noise", quick: 4000, thorough: 150000}},
@@ -586,7 +594,8 @@ func init() {
 		batches: []batch{{name: "zmodem", quick: 2000, thorough: 80000}},
 		rule:    "each evaluation is one real filter with zmodem enabled, a scripted remote rz/sz (start header within one read, optionally accompanied by a cancel sequence or 'cannot open'; then finishes, cancels early or late, keeps sending, or goes quiet) and a scripted local helper behind the os/exec substitute (normal, exits non-zero, exits at once, never writes, writes late, missing from PATH), upload with and without files to send, download, optional Ctrl-C early or late; all timers (100 ms start delay, 500 ms quiet timer, 20 s timeouts) run on the fake clock; oracles: matching helper and directory, started at most once, traffic bridged both ways in clean sessions, server told to cancel whenever the session did not complete, a silent helper cancelled or killed, vetoed headers start nothing and are shown, and after 26 s typed input reaches the server and a printed probe reaches the terminal; non-trivial = all of that evaluated; distinct = distinct (case class, schedule-trace hash, tape hash)"})
 	reg(&propDef{id: "C18", level: "exploration", crashIsViol: false,
-		batches: []batch{{name: "pauses", quick: 2400, thorough: 90000}},
+		batches: []batch{{name: "pauses", quick: 2400, thorough: 60000},
+			{name: "enumerated", quick: 4, thorough: 120, enumKinds: 6, enumPos: 1, enumBases: 120}},
 		rule:    "each evaluation is one simulated transfer (protocol 3 or 4, T in {2,5,20} s) paused 1-3 times at tape-chosen messages by Ctrl-C and continued through the real prompt after a think time of 0.02T..3T; non-trivial = at least one pause/continue cycle completed and the outcome rules (short pause => success with identical files; long pause => success or error, never a hang or a wrong file) and the no-data-while-paused monitor were evaluated; distinct = distinct (configuration + pause band + cycles, schedule-trace hash, tape hash)"})
 	reg(&propDef{id: "C03", level: "exploration", crashIsViol: true,
 		batches: []batch{{name: "buffer", quick: 3000, thorough: 120000}},
@@ -918,6 +927,7 @@ func main() {
 	id := 0
 	batchOf := map[int]string{}
 	chunkOf := map[string]int{}
+	enumBaseRuns, enumPlaces := 0, 0
 	for _, b := range pd.batches {
 		if *onlyBatch != "" && b.name != *onlyBatch {
 			continue
@@ -928,6 +938,45 @@ func main() {
 		}
 		if *runs > 0 {
 			n = *runs
+		}
+		if b.enumKinds > 0 {
+			bases := b.quick
+			if *tier == "thorough" {
+				bases = b.enumBases
+			}
+			if *runs > 0 {
+				bases = *runs
+			}
+			var phase1 []*Job
+			for i := 0; i < bases; i++ {
+				params := map[string]string{"batch": b.name, "enum_k": "-1"}
+				for k, v := range b.params {
+					params[k] = v
+				}
+				phase1 = append(phase1, &Job{ID: 5000000 + i, Prop: pd.id, Seed: uint64(*seed), Idx: i, Tier: *tier, Params: params})
+			}
+			for _, r := range pl.runAll(phase1) {
+				places := 0
+				if v, ok := r.Scenario["enum_places"].(float64); ok {
+					places = int(v)
+				}
+				enumBaseRuns++
+				for k := 0; k < places; k++ {
+					for kind := 0; kind < b.enumKinds; kind++ {
+						for pos := 0; pos < b.enumPos; pos++ {
+							params := map[string]string{"batch": b.name, "enum_k": fmt.Sprint(k), "enum_kind": fmt.Sprint(kind), "enum_pos": fmt.Sprint(pos)}
+							for kk, v := range b.params {
+								params[kk] = v
+							}
+							jobs = append(jobs, &Job{ID: id, Prop: pd.id, Seed: uint64(*seed), Idx: r.Idx, Tier: *tier, Params: params})
+							batchOf[id] = b.name
+							id++
+							enumPlaces++
+						}
+					}
+				}
+			}
+			continue
 		}
 		for i := 0; i < n; i++ {
 			params := map[string]string{"batch": b.name}
@@ -1148,6 +1197,8 @@ func main() {
 		"determinism_mismatches": detMismatch,
 		"crashes":                len(crashes),
 		"worker_processes":       pl.procsRun,
+		"enumeration_base_scenarios": enumBaseRuns,
+		"enumerated_fault_placements": enumPlaces,
 		"real_components":        "transfer, pipeline, buffer, escape, append, archive, comm, progress, filter (incl. promptui prompt), relay, trz/tsz mains, zmodem bridge; zstd/base64/zlib/md5/json libraries; real files in a per-run temp dir",
 		"stub_components":        "pty/spawn, raw-mode term calls, zenity, clipboard, tmux/stty/lrzsz children (scripted), TCP (in-memory), OS signals (simulator-delivered), fork re-exec",
 	}
